@@ -17,6 +17,10 @@ Assume/guarantee decomposition, each part a check of the real code:
 2. every mutator signals: append / copy / move / update / delete /
    claim_recent each set a listener registered with or_event beforehand.
 3. the diff after wake-up is right: C01 / C02.
+3b. end to end on the real connection loop (checks/_idle.py): session A idles
+   on a scripted transport, session B changes the mailbox in bursts with the
+   transport yielding to the loop in between; everything B did has reached the
+   client, as bytes, before DONE is sent.
 4. DONE ends IDLE with the tagged OK and anything else with BAD: the real
    IMAPConnection.idle on a scripted transport with a symbolic line.
 """
@@ -328,6 +332,13 @@ def harnesses(tier):
         hs.append(Harness('change_while_not_parked[history=%d]' % d, _h_push(d),
                           {'history': d, 'sync_point': 'any position before the last mutation'}, replay='push',
                           task_budget=60))
+    from checks import _idle
+    for mm, npre, bursts in ([(2, 0, (1, 1)), (2, 1, (1,))] if q else [(2, 0, (1, 1)), (2, 1, (1, 1)), (3, 0, (2, 1))]):
+        hs.append(Harness('idle_end_to_end[m=%d,pending=%d,bursts=%s]' % (mm, npre, '+'.join(map(str, bursts))),
+                          _idle.harness(_g, mm, npre, bursts, want_delivery=True),
+                          {'initial_messages': mm, 'pending_at_idle_start': npre, 'bursts_while_idling': list(bursts),
+                           'oracle': 'everything done while idling has reached the client before DONE is sent'},
+                          replay='idle_e2e', task_budget=40))
     hs.append(Harness('mutators_signal', _h_signal(), {'mutators': MUTATORS}, replay='signal'))
     for n in ([0, 4, 5] if q else [0, 1, 2, 3, 4, 5, 6]):
         hs.append(Harness('idle_done_line[len=%d]' % n, _h_idle_done(n), {'line_len': n}, replay='idledone', task_budget=20))
@@ -349,6 +360,10 @@ def replay(harness, w):
     def check(c, msg=''):
         if not c:
             bad.append(msg or 'obligation failed')
+    if harness == 'idle_e2e':
+        from checks import _idle
+        b = _idle.replay(w)
+        return {'violates': bool(b), 'detail': b[:3], 'category': 'idle e2e: ' + (b[0] if b else '')[:50]}
     if harness == 'parked':
         err = parked_scenario(g, _sim, w['history'], w['p'], check)
     elif harness == 'push':
